@@ -41,7 +41,7 @@ func newRPCClient(c *Client) (*RPCClient, error) {
 	}
 
 	// Create the actual RPC client
-	result, err := NewRPCClient(conn, c.config.Plugins)
+	result, err := NewRPCClient(conn, c.plugins())
 	if err != nil {
 		conn.Close()
 		return nil, err
